@@ -439,7 +439,15 @@ impl AssocBoundsGroup {
         substitutions: &Substitutions,
     ) -> impl Iterator<Item = Self> + use<> {
         let mut unsized_params = self.unsized_params.clone();
-        unsized_params.extend(other.1.clone());
+        // NOTE: Params of `other` are renamed to the params of the impl group they are mapped from
+        unsized_params.extend(other.1.iter().flat_map(|unsized_param| {
+            let sized_bound = (unsized_param.clone(), TraitBound(syn::parse_quote!(Sized)));
+
+            substitutions
+                .substitute(&sized_bound)
+                .map(|(unsized_param, _)| unsized_param)
+                .collect::<Vec<_>>()
+        }));
 
         let other = other.0.iter().fold(
             IndexMap::<_, IndexMap<_, _>>::new(),
@@ -477,18 +485,9 @@ impl AssocBoundsGroup {
                     .collect::<Vec<_>>()
             })
             .multi_cartesian_product()
-            .map(move |bounds| {
-                let mut unsized_params = unsized_params.clone();
-
-                let bounds: IndexMap<_, _> = bounds.into_iter().flatten().collect();
-                let params = bounds.keys().map(|(param, _)| param).collect::<Vec<_>>();
-
-                unsized_params.retain(|param| params.contains(&param));
-
-                Self {
-                    bounds,
-                    unsized_params,
-                }
+            .map(move |bounds| Self {
+                bounds: bounds.into_iter().flatten().collect(),
+                unsized_params: unsized_params.clone(),
             })
     }
 }
